@@ -247,6 +247,19 @@ class Repo:
 
     def func(self, qualname, default=_MISSING):
         if qualname not in self.functions:
+            # `module:factory.<inner>`: the inner function of a factory is found by role when its private name changed -
+            # it is the nested def the factory returns (or, failing that, its only nested def)
+            mod, _, q = qualname.partition(':')
+            if '.' in q:
+                outer = self.func(mod + ':' + q.rsplit('.', 1)[0], None)
+                if outer is not None and not isinstance(outer.node, ast.Lambda):
+                    nested = [n for n in own_nodes(outer.node) if isinstance(n, (ast.FunctionDef, ast.AsyncFunctionDef))]
+                    rets = [n.value.id for n in own_nodes(outer.node) if isinstance(n, ast.Return) and isinstance(n.value, ast.Name)]
+                    pick = [n for n in nested if n.name in rets]
+                    if len(pick) != 1 and len(nested) == 1:
+                        pick = nested
+                    if len(pick) == 1 and id(pick[0]) in self.func_of_node:
+                        return self.func_of_node[id(pick[0])]
             if default is not Repo._MISSING:
                 return default
             raise AnalysisError('function %s not found (anchor vanished)' % qualname)
